@@ -8,33 +8,33 @@ def commits():
 
 CHECKS = {
  "C06": dict(cat="exploration", ref="5.4",
-   text="Seeded histories of bind/copy/nest/pass/mutate/observe events over arrays and maps of sizes 0..20 (both sides of the 8-element/4-pair thresholds) run as inputs on one real session; after every event every live name is observed as a typed canonical tree and compared with a copy-on-bind reference model; failing operations must change nothing and an assignment cancelled by a deadline fault at a random virtual tick must leave old or new value. Recorded in-place-mutation findings on large containers are matched by (kind, container, size class, mutation family), counted, and the session re-synchronised so the search continues; any mismatch on small containers or on another path is a VIOLATION.",
+   text="Seeded histories of bind/copy/nest (also from inside a function, built from outer bindings)/pass/mutate/observe events over arrays and maps of sizes 0..20 (both sides of the 8-element/4-pair thresholds) run as inputs on one real session; after every event every live name is observed as a typed canonical tree and compared with a copy-on-bind reference model; failing operations must change nothing and an assignment cancelled by a deadline fault at a random virtual tick must leave old or new value. Recorded in-place-mutation findings on large containers are matched by (kind, container, size class, mutation family), counted, and the session re-synchronised so the search continues; any mismatch on small containers or on another path is a VIOLATION.",
    note="The model encodes copy-on-bind value semantics as the documented behaviour; elements are integers or nested containers, map keys strings.",
    tech="deterministic simulation: seeded operation histories + injected cancellation, checked after every step against a small executable value-semantics model"),
  "C09": dict(cat="exploration", ref="5.5, 10",
-   text="(a) for 22 programs (non-terminating loops of every for form, unbounded/mutual recursion, closures, heavy operators, sleep) the virtual deadline is swept over EVERY tick 1..min(T,cap): EvalOne must return, polls after firing stay within N*(D+2), the outcome is an error/recovered panic, virtual sleep honours the deadline, a probe input works afterwards. (b) MaxDepth 10..3000 with direct/mutual/closure/eval()/nested-source recursion must end in the max-depth guard or a value, and a recursion calibrated to MaxDepth-eps must succeed right after. (c) child processes under RLIMIT_AS=4GiB and GOMEMLIMIT=64MiB evaluate repetition/range/concat/doubling/macro-recursion programs with operands across 2^31/2^63 and in the free/16..free band; they must exit normally with a result within the budget or the memory/depth guard. (d) evaluators that used to run without a context (unjson, eval, macro bodies and arguments) under a virtual deadline. Every sub-scenario runs in a watchdog child, so an evaluation that never polls the context again, a fatal stack overflow or an OOM kill is reported as a violation instead of hanging or killing the harness.",
-   note="No real clock decides a verdict except the watchdogs (180 s / 45 s of real time for evaluations that take milliseconds when correct). Wall-clock latency of cancellation and peak RSS are not judged. One recorded finding: fat-frame recursion overflows the Go stack at the default depth limit.",
+   text="(a) for 22 programs (non-terminating loops of every for form, unbounded/mutual recursion, closures, heavy operators, sleep) the virtual deadline is swept over EVERY tick 1..min(T,cap): EvalOne must return, polls after firing stay within N*(D+2), the outcome is an error/recovered panic, virtual sleep honours the deadline, a probe input works afterwards. (b) MaxDepth 10..3000 with direct/mutual/closure/eval()/nested-source recursion must end in the max-depth guard or a value, and a recursion calibrated to MaxDepth-eps must succeed right after. (c) child processes under RLIMIT_AS=4GiB and GOMEMLIMIT=64MiB evaluate repetition/range/concat/doubling/macro-recursion programs with operands across 2^31/2^63 and in the free/16..free band; they must exit normally with a result within the budget or the memory/depth guard. (d) evaluators that used to run without a context (unjson, eval, macro bodies and arguments) and run()/exec() followed by an endless loop (unrestricted IO) under a virtual deadline. (e) the REAL timer of SetContext: MaxDuration 150 ms under a host context without, with a later and with an earlier deadline must come back within 12 s. Every sub-scenario runs in a watchdog child, so an evaluation that never polls the context again, a fatal stack overflow or an OOM kill is reported as a violation instead of hanging or killing the harness.",
+   note="No real clock decides a verdict except the watchdogs (180 s / 45 s of real time for evaluations that take milliseconds when correct). Wall-clock latency of cancellation and peak RSS are not judged. Real time decides only the realtimer verdict, with a margin of x80. Two recorded findings: fat-frame recursion overflows the Go stack at the default depth limit; a large container assigned into itself is cyclic and printing it kills the process.",
    tech="deterministic simulation: virtual-clock deadline swept over every cancellation instant, depth guard under random limits, memory guard via injected budget; all inside address-space-limited watchdog child processes"),
  "C10": dict(cat="exploration", ref="5.6",
-   text="Seeded search over session histories: each base history of succeeding inputs is executed on the real interpreter with and without side-effect-free failing inputs (language error, Go runtime panic in a function or in a callee of a top-level loop, depth overflow, deadline at a PRNG-chosen virtual tick, injected allocation refusal, writer error, register-only loop errors) inserted at random positions with multiplicity 1..11 (slot and depth leaks only show after several failures); every later input must produce identical output/value/outcome (and identical tick count with the cache off), and final globals must agree. Sampling, not proof.",
+   text="Seeded search over session histories: each base history of succeeding inputs is executed on the real interpreter with and without side-effect-free failing inputs (language error, Go runtime panic in a function or in a callee of a top-level loop, depth overflow, deadline at a PRNG-chosen virtual tick, injected allocation refusal, writer error, register-only loop errors, break/continue outside loops, a panic inside eval() reached through a function, a panic on the right of a pipe) inserted at random positions with multiplicity 1..11 (slot and depth leaks only show after several failures); every later input must produce identical output/value/outcome (and identical tick count with the cache off), and final globals must agree; a cancelled input's text is sometimes re-submitted uncancelled later in both histories (stale memoized partial results). Sampling, not proof.",
    note="Trusts the harness generator's construction of side-effect-free failing inputs and the virtual clock (1 tick per evaluated node) standing for real deadlines; error wording is not compared.",
    tech="deterministic simulation: seeded session histories + injected cancellation/allocation/writer faults, differential against the fault-free history of the same real code"),
 
  "C03": dict(cat="exploration", ref="5.1",
-   text="Seeded in-process histories interleave format(text, normal|compact) with full evaluation of other inputs (which grows the process-global token interning table and the globals) and with repeated formatting; texts come from the workload grammar decorated with line/block comments and line breaks at statement boundaries; each output is formatted again. Every format of a text must give the bytes of its first occurrence; a fresh worker process (different map hash seed, empty interning table) formatting the same texts in reverse order must produce identical bytes; format(format(t)) == format(t) in both modes; normal mode ends with exactly one newline.",
+   text="Seeded in-process histories interleave format(text, normal|compact) with full evaluation of other inputs (which grows the process-global token interning table and the globals) and with repeated formatting; texts come from the workload grammar decorated with line/block comments and line breaks at statement boundaries, plus string literals holding raw non-UTF-8 bytes; each output is formatted again. Every format of a text must give the bytes of its first occurrence; a fresh worker process (different map hash seed, empty interning table) formatting the same texts in reverse order must produce identical bytes; format(format(t)) == format(t) in both modes; normal mode ends with exactly one newline.",
    note="The 'all parseable texts' quantifier is only sampled through the grammar (byte mutation would be input fuzzing); the recorded normal-mode sign-leading-statement finding is confined to a probe.",
    tech="deterministic simulation: seeded histories of format/evaluate events in one process plus a second OS process, checking history- and process-independence and the fixpoint of the real printer"),
  "C04": dict(cat="exploration", ref="5.2",
-   text="Seeded search over REPL input sequences (definitions, leaf redefinitions, repeated and verbatim re-submitted calls, closures, outer reads/writes, prints, rand/time, cancellations inside printing calls) executed on the real interpreter with the cache on and, through hook H1, off, under identical rand/time streams; per input the output bytes, value, outcome class and rand/time call counts must be identical, and final globals must agree. Recorded design-level staleness findings are confined to fixed probe histories (KNOWN-FINDING).",
-   note="log() is not generated (documented as uncaptured); sleep() being memoizable is not judged; in-place mutation of a large container returned by a cached call is attributed to C06 and kept out of this generator.",
+   text="Seeded search over REPL input sequences (definitions, leaf redefinitions, repeated and verbatim re-submitted calls, closures, outer reads/writes, prints, rand/time, functions reading a sometimes-deleted global under catch(), recursion reading a global in every frame, cancellations inside printing calls and inside a callee whose error the caller catch()es) executed on the real interpreter with the cache on and, through hook H1, off, under identical rand/time streams; per input the output bytes, value, outcome class and rand/time call counts must be identical, and final globals must agree. Fixed probe histories cover -0.0 (also nested in container arguments), variadic keys and save()/load() inside functions (scratch directory); recorded design-level staleness findings are confined to fixed probes (KNOWN-FINDING).",
+   note="log() is not generated (a diagnostic channel written for actual executions only, pinned by grol's TestEvalMemoPrint); sleep() being memoizable is not judged; in-place mutation of a large container returned by a cached call is attributed to C06 and kept out of this generator.",
    tech="deterministic simulation: seeded session histories with virtual rand/time streams and injected cancellations, differential between cache enabled/disabled (hook) of the same real code"),
  "C05": dict(cat="exploration", ref="5.3",
-   text="Seeded search over multi-input session histories plus a deterministic sweep (parameter count 0..12 x loop depth 0..10 x exit kind): the same concrete history runs on the real interpreter with registers on and off and every input must give identical output/value/outcome class and identical final globals; deadline faults are addressed by the k-th execution of a planted marker so they hit the same program point in both modes. Recorded (not repaired) divergences about loop-variable scoping are re-observed by fixed probe histories and printed as KNOWN-FINDING.",
+   text="Seeded search over multi-input session histories plus a deterministic sweep (parameter count 0..12 x loop depth 0..10 x exit kind): the same concrete history runs on the real interpreter with registers on and off and every input must give identical output/value/outcome class and identical final globals; deadline faults are addressed by the k-th execution of a planted marker so they hit the same program point in both modes. The grammar includes integer variables as map keys and field names, catch(for ...) in the same environment, loop values alive past their loop; fixed agreeing histories cover ':=' reuse of a parameter and operand orders of ==. Recorded (not repaired) divergences about loop-variable scoping and register-pinned parameters are re-observed by fixed probe histories and printed as KNOWN-FINDING.",
    note="Generated programs avoid type()/info; loop variables get unique names in the random batch so the recorded loop-variable-scoping findings stay confined to their probes; error wording is not compared.",
    tech="deterministic simulation: seeded session histories + marker-addressed cancellation, differential between NoReg=false/true of the same real code"),
 
  "C11": dict(cat="exploration", ref="5.7",
-   text="Seeded sequential-history refinement: random operation histories (set/update/delete/merge/rest/range/literal with duplicates/permuted rebuild) over per-run universes of 3..16 mixed-type keys (incl. int/float twins such as 1 and 1.0) are applied in lock-step to object.Map via the Go API, to a variable of a real grol session via source text, and to an association-list model; after every operation length, lookup of every key, iteration order, printed form, equality with a canonically built twin and immutability of + operands are compared. No faults apply (stated); sampled, not enumerated.",
+   text="Seeded sequential-history refinement: random operation histories (set/update/delete/merge/rest/range incl. raw negative and out-of-range bounds/literal with duplicates/permuted rebuild/assignment with a failing index expression; in 30% of the runs every language-level operation is issued from inside a function on the outer map) over per-run universes of 3..16 mixed-type keys (incl. int/float twins such as 1 and 1.0) are applied in lock-step to object.Map via the Go API, to a variable of a real grol session via source text, and to an association-list model; after every operation length, lookup of every key, iteration order, printed form, equality with a canonically built twin and immutability of + operands are compared. No faults apply (stated); sampled, not enumerated.",
    note="Cross-type key rank is learned from one canonical build per run (history independence rather than a hard-coded rank); int/float twins (1 and 1.0) are one key whose first-stored representative stays (typed comparison of the stored key); NaN and -0 are left to C12.",
    tech="deterministic simulation harness used as seeded history search: sequential refinement of the real map implementation (API and language level) against a small executable reference model"),
  "C13": dict(cat="exploration", ref="5.8",
@@ -42,11 +42,11 @@ CHECKS = {
    note="Templates are single quoted integer expressions; the printer may regroup repeated associative operators (pinned by grol's tests), so the reprint oracle compares evaluation, not tree identity.",
    tech="deterministic simulation: seeded multi-input sessions with injected failing inputs, refinement of macro expansion against an executable textual-substitution model"),
  "C14": dict(cat="exploration", ref="5.9",
-   text="Seeded worlds in a scratch directory: globals of 19 generator-known value kinds (int extremes, every float class, strings over all bytes, nested containers with keys of every type, named functions and lambdas from the workload grammar) are bound, saved (save(), SaveGlobals, AutoSave), the interpreter restarted (fresh state), loaded (load() whole-file or AutoLoad line by line), observed as typed canonical trees, functions re-called on fixed arguments, and saved again, for up to 3 cycles under MaxValueLen in {0,10,100,4000}; faults: state file truncated at a random byte or one byte flipped between save and load, and a binding above bufio.Scanner's 64 KiB limit. Oracles: equal value and type, same function behaviour, one line per binding = reported count, byte-identical re-save, over-long values absent, damaged file never panics AutoLoad and every intact line is restored.",
+   text="Seeded worlds in a scratch directory: globals of 19 generator-known value kinds (int extremes, every float class, strings over all bytes, nested containers with keys of every type, named functions and lambdas from the workload grammar) are bound, saved (save(), SaveGlobals, AutoSave), the interpreter restarted (fresh state), loaded (load() whole-file or AutoLoad line by line), observed as typed canonical trees, functions re-called on fixed arguments, and saved again, for up to 3 cycles under MaxValueLen in {0,10,100,4000}; faults: state file truncated at a random byte, one byte flipped or a garbage line inserted between save and load, and a binding above bufio.Scanner's 64 KiB limit; fixed probes: auto-save after a write made only by a function, alias of a named function, comment-only lambda. Oracles: equal value and type, same function behaviour, one line per binding = reported count, byte-identical re-save, over-long values absent, damaged file never panics AutoLoad and every intact line is restored.",
    note="A restart is a fresh eval.State in the same OS process. Recorded findings (integral floats, -0, MinInt64, closures, two printer regroupings) are matched by value kind / fixed probe; generated function bodies avoid the two recorded printer regroupings.",
    tech="deterministic simulation: seeded save/restart/load histories on a real scratch file system with injected torn/flipped state files, checked against generator-known values"),
  "C15": dict(cat="exploration", ref="5.10",
-   text="The simulator acts as the transport of source text and decides fragmentation: seeded scripts (multi-line statements, comments, macros before use) are (a) parsed in file and line mode and compared by a harness-side structural dump, (b) cut at every token boundary reported by the real lexer (plus positions inside strings/block comments): every prefix ending inside an open ( [ { string/comment or after a binary operator must yield a continuation request without errors, and line-by-line feeding through the REPL's prev+line accumulation must give the same statements, (c) delivered to a persistent session as one input and as every split into consecutive chunks (all 2^(n-1) for n<=7), optionally with failing inputs between chunks: same program output and final globals.",
+   text="The simulator acts as the transport of source text and decides fragmentation: seeded scripts (multi-line statements, comments, macros before use, statements starting with a string literal, parameterless lambdas inside open brackets) are (a) parsed in file and line mode and compared by a harness-side structural dump, (b) cut at every token boundary reported by the real lexer (plus positions inside strings/block comments): every prefix ending inside an open ( [ { string/comment or after a binary operator must yield a continuation request without errors, and line-by-line feeding through the REPL's prev+line accumulation must give the same statements, (c) delivered to a persistent session as one input and as every split into consecutive chunks (all 2^(n-1) for n<=7), optionally with failing inputs between chunks: same program output and final globals.",
    note="Chunks are aligned with generator-known top-level statements, each terminated by ';' because grol continues a statement across a newline before ++/--; repl.Interactive's terminal loop is re-implemented (6 lines) around the real parser.",
    tech="deterministic simulation: the simulator fragments the input stream (all cuts / all splits per script) and injects failing inputs; differential against whole-file delivery on the same real code"),
  "C17": dict(cat="exploration", ref="5.11",
@@ -58,7 +58,7 @@ CHECKS = {
    note="Crash = process death (page cache survives); power loss / fsync ordering is out of scope as the property speaks of process death. The unwritable-directory fault is skipped when running as root.",
    tech="deterministic simulation with crash-point enumeration: worker processes killed at hook-defined points of the save path, kernel-injected write failures, on-disk state compared with the two legal versions"),
  "C19": dict(cat="exploration", ref="5.13",
-   text="Seeded attack histories: constants of every value type incl. arrays/maps on both sides of the size thresholds are bound, then hit by random sequences of 30 kinds of mutation attempts (assignment forms, ++/--, index/dot assignment, element deletion, loop variable incl. loops starting at the constant's own value and the ninth nested loop, function-local constants, parameter name, nested functions and loops, self-append, catch-wrapped, alias, mutating callee, cancelled slow assignment) with explicit del+rebind interleaved; two real sessions (registers on/off) run in lock-step and after every attempt every bound constant is re-observed in both; outcome classes must agree between the modes. A monitor mode re-observes every upper-case name of general generated sessions after every input. Recorded alias-based findings (rooted in C06) are matched narrowly and the search continues past them.",
+   text="Seeded attack histories: constants of every value type incl. arrays/maps on both sides of the size thresholds are bound, then hit by random sequences of 30 kinds of mutation attempts (assignment forms, ++/--, index/dot assignment, element deletion, loop variable incl. loops starting at the constant's own value and the ninth nested loop, function-local constants, parameter name, nested functions and loops, self-append, catch-wrapped, alias, mutating callee, cancelled slow assignment, numerically equal value of the other type also nested in containers, loop bodies reading the constant) with explicit del+rebind interleaved; two real sessions (registers on/off) run in lock-step and after every attempt every bound constant is re-observed in both; outcome classes and printed output must agree between the modes. A monitor mode re-observes every upper-case name of general generated sessions after every input. Recorded alias-based findings (rooted in C06) are matched narrowly and the search continues past them.",
    note="An attempt may fail or be a no-op; re-binding an equal value is allowed by the language. Attempts on a name that is not currently bound are skipped.",
    tech="deterministic simulation: seeded attack histories with injected cancellation, invariant (constant unchanged) checked after every step on both register configurations"),
  "C20": dict(cat="exploration", ref="5.14",
